@@ -83,7 +83,7 @@ impl<'a, R: Read> BodyReader<'a, R> {
 
     pub(crate) fn inner(&self) -> &R {
         match &self.0 {
-            BodyEncoding::Fixed(FixedReader { inner, .. }) => inner.get_ref().inner(),
+            BodyEncoding::Fixed(FixedReader { inner, .. }) => inner.get_ref().get_ref().inner(),
             BodyEncoding::Chunked(ChunkedReader { inner, .. }) => inner.get_ref().inner(),
             BodyEncoding::Eof(reader) => reader.get_ref().inner(),
             BodyEncoding::Empty(s) => s,
@@ -181,14 +181,19 @@ impl<R: Read> Read for StreamWithLeftover<'_, R> {
 // ---------------------------------------------------------------------
 
 struct FixedReader<'a, R> {
-    inner: BufReader<StreamWithLeftover<'a, R>>,
+    // `Take`: the buffered reader must never pull bytes past the end of the body out of the
+    // stream (they belong to the next request and would be lost with the buffer)
+    inner: BufReader<io::Take<StreamWithLeftover<'a, R>>>,
     remaining: usize,
 }
 
 impl<'a, R: Read> FixedReader<'a, R> {
     fn new(leftover: &'a [u8], stream: R, len: usize) -> Self {
         Self {
-            inner: BufReader::with_capacity(BUF_SIZE, StreamWithLeftover::new(leftover, stream)),
+            inner: BufReader::with_capacity(
+                BUF_SIZE,
+                StreamWithLeftover::new(leftover, stream).take(len as u64),
+            ),
             remaining: len,
         }
     }
